@@ -500,6 +500,9 @@ func rollbackCases(c *common.Ctx) error {
 		}
 		// a committed prefix, possibly none (first transaction of a brand-new database)
 		k := r.Intn(4)
+		if i < 4 && k == 0 {
+			k = 1
+		}
 		okPrefix := true
 		for done := 0; done < k; {
 			st := h.GenStep()
@@ -533,6 +536,14 @@ func rollbackCases(c *common.Ctx) error {
 		}
 		sector := []int{512, 4096}[r.Intn(2)]
 		nrecMode := r.Intn(3) // 0 exact, 1 unsynced (0), 2 no-sync (-1)
+		// the first histories always modify the last page of the database (every appending insert does) and have
+		// overwritten it before the writer died
+		forced := uint32(0)
+		if i < 4 && len(pre.Pages) > 0 {
+			forced = uint32(len(pre.Pages))
+			pages = append(pages, forced)
+			nrecMode = []int{0, 2, 0, 2}[i]
+		}
 		nrec := int32(len(pages))
 		if nrecMode == 1 {
 			nrec = 0
@@ -550,7 +561,7 @@ func rollbackCases(c *common.Ctx) error {
 				}
 			}
 			switch {
-			case p > uint32(len(pre.Pages)) || (journaled && nrecMode != 1 && r.Bool()):
+			case p > uint32(len(pre.Pages)) || (journaled && nrecMode != 1 && (r.Bool() || p == forced)):
 				pg := lfs.MakePage(ps, p, r.U64(), newSize, false)
 				dbBytes.Write(pg)
 			default:
@@ -740,7 +751,10 @@ func walAtOpen(c *common.Ctx) error {
 		sel := r.Intn(8)
 		if i < len(oddPageSizes) {
 			sel = 100 + i
+		} else if i < len(oddPageSizes)+3 {
+			sel = 6 // committed transactions ...
 		}
+		shrinkAfter := i >= len(oddPageSizes) && i < len(oddPageSizes)+3 // ... the last of which cuts off pages an earlier one wrote
 		switch sel {
 		case 6, 7:
 			// k committed transactions followed by valid frames of one that never committed (no transaction
@@ -764,6 +778,13 @@ func walAtOpen(c *common.Ctx) error {
 					}
 					frames = append(frames, [2]uint32{pg, commit})
 				}
+			}
+			if shrinkAfter {
+				// one transaction appends three pages, the next one commits a size two pages smaller (vacuum)
+				kind = "grow-then-shrink-then-uncommitted"
+				frames = append(frames, [2]uint32{size + 1, 0}, [2]uint32{size + 2, 0}, [2]uint32{size + 3, 0}, [2]uint32{1, size + 3})
+				frames = append(frames, [2]uint32{2, 0}, [2]uint32{1, size + 1})
+				size++
 			}
 			for j := 0; j < 1+r.Intn(3); j++ {
 				frames = append(frames, [2]uint32{uint32(1 + r.Intn(int(size))), 0})
